@@ -821,5 +821,7 @@ func main() {
 	c.Set("rule", "complete product era x inputs x outputs x fee x withdrawal x certificate set x proposal x donation x mint variant x coin imbalance (0, +-1, +- each value-moving term of the structure) x asset imbalance; distinct = all of these as a class; a rule's rejection counts iff the same rule accepts the balanced variant of the same structure (every rule of the era list is called separately), the era's UtxoValidateValueNotConservedUtxo is also called directly")
 	c.Set("parameters", map[string]any{"keyDeposit": keyDep, "poolDeposit": poolDep, "dRepDeposit": drepDep, "govActionDeposit": govDep, "donation": donAmt})
 	c.Assume("variants are unsigned (the signature rules then reject variant and balanced baseline alike and are ignored); the signed twin of every balanced structure is run through VerifyTransaction for the evidence. ed25519/blake2b trusted; deposits recorded in the stub state equal the protocol parameters and the amounts written in the certificates, so every reading of 'refund' gives the same number")
+	// free-running -race pass: concurrent callers on their own inputs (state the library shares between calls)
+	c.RaceAudit("c27")
 	c.Finish()
 }
